@@ -276,6 +276,8 @@ impl<TStdlib: Stdlib, TStdIn: Input, TStdOut: Printer, TLpt1: Printer> Interpret
                             i = handler_address;
                         }
                         ErrorHandler::Next => {
+                            // the failed statement might have been collecting arguments for a call
+                            self.context.drop_argument_states();
                             i = ctx.nearest_statement_finder.find_next(i);
                         }
                         ErrorHandler::None => {
